@@ -41,6 +41,11 @@ def main(argv):
         mod.worker_init()
     cov = coverage.AnchorCoverage(getattr(mod, "ANCHORS", []))
     cov.start()
+    pcov = None
+    if os.environ.get("VERIF_PKGCOV"):
+        from vlib.pkgcov import PkgCoverage
+        pcov = PkgCoverage(pkg_path, os.path.join(os.environ["VERIF_PKGCOV"], prop_id))
+        pcov.start()
 
     events, regimes, kinds = Counter(), Counter(), Counter()
     violations, samples, nt = [], [], set()
@@ -81,6 +86,8 @@ def main(argv):
             samples.append(jsonable(obs.sample))
         t_cases.append(time.time() - t0)
     cov.stop()
+    if pcov is not None:
+        pcov.stop()
     out = {
         "ran": ran,
         "skipped": skipped,
